@@ -18,8 +18,13 @@ type lineLimitReader struct {
 	curLineLength int
 }
 
+// exceeded reports whether the line being read is longer than the limit.
+func (r *lineLimitReader) exceeded() bool {
+	return r.curLineLength > r.LineLimit && r.LineLimit > 0
+}
+
 func (r *lineLimitReader) Read(b []byte) (int, error) {
-	if r.curLineLength > r.LineLimit && r.LineLimit > 0 {
+	if r.exceeded() {
 		return 0, ErrTooLongLine
 	}
 
